@@ -775,3 +775,22 @@ def check_C04(inp):
 
 
 CHECKS = {k[6:]: v for k, v in list(globals().items()) if k.startswith("check_")}
+
+
+def check_C14(inp):
+    """scores of two vectors one severity step apart: `hi` never scores lower than `lo`"""
+    ver = inp["version"]
+    C = cls_of(ver)
+    a, b = C(inp["lo"]).scores(), C(inp["hi"]).scores()
+    which = inp.get("which")
+    for i, (x, y) in enumerate(zip(a, b)):
+        if which is not None and i not in which:
+            continue
+        if x is None or y is None:
+            continue
+        if y < x:
+            return "score %d drops from %r (%s) to %r (%s)" % (i, x, inp["lo"], y, inp["hi"])
+    return None
+
+
+CHECKS = {k[6:]: v for k, v in list(globals().items()) if k.startswith("check_")}
